@@ -187,6 +187,9 @@ def run(ck, tier):
                                                          'WriteSingleCoilRequest', 'WriteSingleRegisterRequest', 'MaskWriteRegisterRequest', 'WriteFileRecordRequest'),
                   'a malformed frame then writes cells its header does not declare', ('R3',))
     ck.floor('R5', n5 or 0, 7, 'decode layout obligations of the write requests')
+    ck.rule('R6', 'no write reaches the datastore before every guard and the range validation of that very range have passed (shared with C05 R2/R3)')
+    from ..share import import_findings
+    import_findings(ck, 'C05', 'R6', ('R2', 'R3'), 'a request that is not valid changes the datastore')
     ck.assume('statements of the receive loops other than the framer call and the transport read are treated as non-raising (logging, attribute reads)')
     ck.assume('what a decoded-but-nonsensical PDU does inside decode() is shown to be contained, not absent; resource exhaustion is not decided')
     return cx.idx
